@@ -269,12 +269,17 @@ def compactCrashFiles (fs : List TsmFile) (i j : Nat) (pt : CPoint) (n : Nat) : 
   | .afterRemoveOld =>
     if 1 ≤ n && n ≤ grp.length then fs.take i ++ grp.drop n ++ out ++ fs.drop (j + 1) else compactFiles fs i j
 
+/-- writeSnapshotAndCommit holds e.mu.RLock() from FileStore.Replace to its return -/
+def commitLocked : Phase → Bool
+  | .replaced | .cleared => true
+  | _ => false
+
 def step (s : State) : Op → State × Obs
   | .write es => (stepWrite s es, .ok)
   | .delete ss lo hi =>
-    match s.phase with
-    | .replaced | .cleared => (s, .blocked)
-    | _ => (stepDelete s ss lo hi, .ok)
+    -- DeleteSeriesRange takes e.mu.Lock() (disableLevelCompactions): it waits while the
+    -- committing snapshot holds e.mu.RLock()
+    if commitLocked s.phase then (s, .blocked) else (stepDelete s ss lo hi, .ok)
   | .snapBegin => stepSnapBegin s
   | .snapStep => (stepSnapStep s, .ok)
   | .snapTo p => (stepSnapTo s p, .ok)
@@ -294,9 +299,8 @@ def step (s : State) : Op → State × Obs
       (openWith s (compactCrashFiles s.files i j pt n) s.wal, .ok)
     else (s, .badGroup)
   | .deleteCrash ss lo hi =>
-    match s.phase with
-    | .replaced | .cleared => (s, .blocked)
-    | _ => (openWith s (s.files.map (addTomb ss lo hi)) s.wal, .ok)
+    if commitLocked s.phase then (s, .blocked)
+    else (openWith s (s.files.map (addTomb ss lo hi)) s.wal, .ok)
 
 /-- run a list of ops, collecting (op, observation) -/
 def runFrom (s : State) : List Op → State × List (Op × Obs)
